@@ -87,12 +87,12 @@ type outcome struct {
 // upstream for a moment. Returning too early is harmless: the virtual clock only moves once every goroutine is idle.
 func (w *world) settle(isDone func() bool) bool {
 	last, idle := w.up.activity.Load(), 0
-	for idle < 6 {
+	for idle < 4 {
 		if isDone() {
 			return true
 		}
 		vtime.RealSleep(120 * time.Microsecond)
-		if a := w.up.activity.Load(); a != last || w.up.busy.Load() != 0 {
+		if a := w.up.activity.Load(); a != last {
 			last, idle = a, 0
 		} else {
 			idle++
@@ -156,14 +156,20 @@ func (w *world) call(res *dns.Resolver, api, name string, sc *script) *outcome {
 			return false
 		}
 	}
-	virt := time.Duration(0)
+	virt, waits := time.Duration(0), 0
 	for !w.settle(isDone) {
 		if virt >= maxVirtual {
 			out.Hung = true
 			break
 		}
-		vtime.Advance(stepVirtual)
-		virt += stepVirtual
+		d, started := rec.nextWake(vtime.Now())
+		if !started && waits < 40 {
+			// nothing has reached the upstream yet: the call is still on its way (real time), no timer is involved
+			waits++
+			continue
+		}
+		vtime.Advance(d)
+		virt += d
 	}
 	if out.Hung {
 		// let the call go: cancel, give it plenty of virtual time; a goroutine that still does not return makes the world unusable
